@@ -248,11 +248,12 @@ void add_nesting_cases(std::vector<ForkCase>& cases, Rng& rng, bool thorough)
 
 // Every controlling statement (if, if-else, while, do, switch, for, for-in, labeled, handler) over every kind of controlled
 // body (a null statement = expression statement of a phantom, a bare phantom, an expression statement, an empty block, a block
-// with one / two statements, break, a nested controlling statement, a declaration), alone and twice inside an enclosing block:
+// with one / two statements, break, a nested controlling statement, a declaration, an unsupported construct bare / as a
+// statement / in braces), alone and twice inside an enclosing block:
 // each complete statement must leave the printer's indentation where it found it.
 void add_body_matrix_cases(std::vector<ForkCase>& cases)
 {
-   for (int outer = 0; outer < 9; ++outer) for (int body = 0; body < 9; ++body) {
+   for (int outer = 0; outer < 9; ++outer) for (int body = 0; body < 12; ++body) {
       std::string label = "body-matrix:" + std::to_string(outer) + "x" + std::to_string(body);
       cases.push_back({ label, [outer, body, label](CaseOut& out) {
          impl::Lexicon lex; impl::Translation_unit unit { lex }; const Lexicon& L = lex; auto& greg = *unit.global_region();
@@ -267,6 +268,11 @@ void add_body_matrix_cases(std::vector<ForkCase>& cases)
             case 5: { auto* b = lex.make_block(greg); b->add_stmt(*lex.make_expr_stmt(*lex.make_phantom())); b->add_stmt(*lex.make_continue()); return b; }
             case 6: return lex.make_break();
             case 7: { auto* w = lex.make_while(); w->control = cond; w->stmt = lex.make_expr_stmt(*lex.make_phantom()); return w; }
+            // constructs the printer does not support, as the controlled body (unbraced), as a bare expression and inside braces:
+            // the print is refused, or completes with the indentation restored -- wherever the refusal is raised or handled
+            case 9: return lex.make_expr_stmt(*lex.make_alignof(*lex.make_literal(L.int_type(), u8"1")));
+            case 10: return lex.make_alignof(*lex.make_literal(L.int_type(), u8"1"));
+            case 11: { auto* b = lex.make_block(greg); b->add_stmt(*lex.make_expr_stmt(*lex.make_alignof(*lex.make_literal(L.int_type(), u8"1")))); return b; }
             default: { auto* b = lex.make_block(greg); auto* v = b->lexical_region.scope.make_var(lex.get_identifier(u8"local"), L.int_type()); b->add_stmt(*v); return b; }
             }
          };
